@@ -120,35 +120,40 @@ def World.segBin (w : World) (op : BinOp) (a b : Seg) : World × Seg :=
   let w2 := { w1 with h := w1.h.applyPrims ((w1.h.bms d).map (fun kc => Prim.freezeAt kc.2)) }
   (w2, ⟨a.shard, d, true⟩)
 
+/-- does the operation keep a shard that only the first / only the second row has? -/
+def keepLeft : BinOp → Bool
+  | .intersect => false
+  | _ => true
+
+def keepRight : BinOp → Bool
+  | .union => true
+  | .xor => true
+  | _ => false
+
+def World.takeShared (w : World) (keep : Bool) (s : Seg) : World × List Seg :=
+  if keep then ((w.segShared s).1, [(w.segShared s).2]) else (w, [])
+
 /-- `Row.Union/Intersect/Difference/Xor` (two rows): merge over shards. -/
 def World.rowBin (w : World) (op : BinOp) : Nat → List Seg → List Seg → World × List Seg
   | 0, _, _ => (w, [])
   | _, [], [] => (w, [])
   | fuel + 1, a :: ra, [] =>
-      match op with
-      | .intersect => w.rowBin op fuel ra []
-      | _ => let r := w.segShared a
-             let r2 := r.1.rowBin op fuel ra []
-             (r2.1, r.2 :: r2.2)
+      let r := w.takeShared (keepLeft op) a
+      let r2 := r.1.rowBin op fuel ra []
+      (r2.1, r.2 ++ r2.2)
   | fuel + 1, [], b :: rb =>
-      match op with
-      | .intersect | .difference => w.rowBin op fuel [] rb
-      | _ => let r := w.segShared b
-             let r2 := r.1.rowBin op fuel [] rb
-             (r2.1, r.2 :: r2.2)
+      let r := w.takeShared (keepRight op) b
+      let r2 := r.1.rowBin op fuel [] rb
+      (r2.1, r.2 ++ r2.2)
   | fuel + 1, a :: ra, b :: rb =>
       if a.shard < b.shard then
-        match op with
-        | .intersect => w.rowBin op fuel ra (b :: rb)
-        | _ => let r := w.segShared a
-               let r2 := r.1.rowBin op fuel ra (b :: rb)
-               (r2.1, r.2 :: r2.2)
+        let r := w.takeShared (keepLeft op) a
+        let r2 := r.1.rowBin op fuel ra (b :: rb)
+        (r2.1, r.2 ++ r2.2)
       else if b.shard < a.shard then
-        match op with
-        | .intersect | .difference => w.rowBin op fuel (a :: ra) rb
-        | _ => let r := w.segShared b
-               let r2 := r.1.rowBin op fuel (a :: ra) rb
-               (r2.1, r.2 :: r2.2)
+        let r := w.takeShared (keepRight op) b
+        let r2 := r.1.rowBin op fuel (a :: ra) rb
+        (r2.1, r.2 ++ r2.2)
       else
         let r := w.segBin op a b
         let r2 := r.1.rowBin op fuel ra rb
@@ -187,6 +192,30 @@ def World.snapshot (w : World) (f : Frag) : World :=
   let empties := (w.h.bms f.storage).filter (fun kc => w.h.vals kc.2 == [])
   let h1 := w.h.applyPrims (empties.map (fun kc => Prim.del f.storage kc.1))
   { w with h := h1.applyPrims [Prim.remapNew f.storage] }
+
+/-- `unprotectedSetRow` / `unprotectedClearRow`: remove every container of row `r`. -/
+def World.delRow (w : World) (st r : Nat) : World :=
+  { w with h := w.h.applyPrims ((List.range perShard).map (fun i => Prim.del st (r * perShard + i))) }
+
+/-- `unprotectedSetRow`: `Put(key, c.Freeze())` for every container of the source row's segment. -/
+def putRowPlan (h : Heap) (f : Frag) (r : Nat) (segs : List Seg) : List Prim :=
+  match segFind segs f.shard with
+  | none => []
+  | some seg => ((h.bms seg.bm).filter (fun kc => f.shard * perShard ≤ kc.1)).map
+                  (fun kc => Prim.share f.storage (r * perShard + kc.1 % perShard) kc.2)
+
+def World.putRow (w : World) (f : Frag) (r : Nat) (segs : List Seg) : World :=
+  { w with h := w.h.applyPrims (putRowPlan w.h f r segs) }
+
+def World.doSetRow (w : World) (f : Frag) (r : Nat) (segs : List Seg) : World :=
+  let w1 := (w.delRow f.storage r).putRow f r segs
+  let f1 := { f with cache := cacheDel f.cache r }
+  { w1.snapshot f1 with frag := some f1 }
+
+def World.doClearRow (w : World) (f : Frag) (r : Nat) : World :=
+  let w1 := w.delRow f.storage r
+  let f1 := { f with cache := cacheDel f.cache r }
+  { w1.snapshot f1 with frag := some f1 }
 
 /-- Containers read by an operation: reading one whose region is unmapped kills the process. -/
 def World.reads (w : World) : Op → List Nat
@@ -291,24 +320,14 @@ def World.step (w : World) (op : Op) : Option World :=
       match w.frag, w.rows[y]? with
       | some f, some segs =>
           if f.isOpen then
-            let dels := (List.range perShard).map (fun i => Prim.del f.storage (r * perShard + i))
-            let puts := match segFind segs f.shard with
-              | none => []
-              | some seg => ((w.h.bms seg.bm).filter (fun kc => f.shard * perShard ≤ kc.1)).map
-                              (fun kc => Prim.share f.storage (r * perShard + kc.1 % perShard) kc.2)
-            let w1 := { w with h := w.h.applyPrims (dels ++ puts) }
-            let f1 := { f with cache := cacheDel f.cache r }
-            some { w1.snapshot f1 with frag := some f1 }
+            some (w.doSetRow f r segs)
           else none
       | _, _ => none
   | .fclearrow r =>
       match w.frag with
       | some f =>
           if f.isOpen then
-            let dels := (List.range perShard).map (fun i => Prim.del f.storage (r * perShard + i))
-            let w1 := { w with h := w.h.applyPrims dels }
-            let f1 := { f with cache := cacheDel f.cache r }
-            some { w1.snapshot f1 with frag := some f1 }
+            some (w.doClearRow f r)
           else none
       | none => none
   | .fsnap =>
